@@ -184,6 +184,13 @@ func doPopulateStructFromJSON(
 				typeField.Name, key)
 		}
 
+		// a struct held by value in an embedded interface cannot be written
+		// to; say so instead of panicking
+		if !valField.CanAddr() {
+			return fmt.Errorf("cannot populate field %q (%q): not addressable (an embedded interface must hold a pointer)",
+				typeField.Name, key)
+		}
+
 		fieldPtr := valField.Addr().Interface()
 		if err := json.Unmarshal(rawVal, fieldPtr); err != nil {
 			return fmt.Errorf("error unmarshaling field %q: %w",
